@@ -77,6 +77,17 @@ Theorem C15_nearby_supply_closed_form : forall ep v,
   fraccion_renovable_acs_nrb ep = (do nb <- q_nrb_non_biomass (ep_factors ep) (dhw_used_by_cr ep); Ok (snd nb / qsum v)).
 Proof. intros. eapply dhw_nearby_supply; eassumption. Qed.
 
+(** direct electric DHW (no auxiliaries, no excluded heat pump, no cogenerated electricity used for DHW): the on-site
+    electricity used for DHW over the demand *)
+Theorem C15_direct_electric_closed_form : forall ep v E,
+  nd_ACS (ep_needs ep) = Some v -> ~ qabs (qsum v) < f32_epsilon ->
+  dhw_used_by_cr ep = [(ELECTRICIDAD, E)] -> qfrac 1 100 <= E ->
+  qsum (map vals_sum (filter (fun e => is_aux e && has_service ACS e) (ep_data ep))) = 0 ->
+  qsum (map vals_sum (filter (fun e => is_used e && has_carrier EAMBIENTE e && contains (e_cmt e) TAG_EXCLUYE_SCOP) (ep_data ep))) = 0 ->
+  t_used_src_srv_opt ep EL_COGEN ACS = 0 ->
+  fraccion_renovable_acs_nrb ep = Ok (t_used_src_srv_opt ep EL_INSITU ACS / qsum v).
+Proof. intros. eapply dhw_direct_electric; eassumption. Qed.
+
 (** solar thermal + boiler: solar energy used for DHW / DHW demand *)
 Theorem C15_solar_boiler : forall fs S cr G,
   cr_is_nearby cr = false -> look fs TERMOSOLAR RED SUMINISTRO STEP_A = Some (mkRNC 1 0 0) ->
@@ -90,3 +101,4 @@ Print Assumptions C15_area_independent.
 Print Assumptions C15_no_dhw_use.
 Print Assumptions C15_nearby_supply_closed_form.
 Print Assumptions C15_solar_boiler.
+Print Assumptions C15_direct_electric_closed_form.
